@@ -41,6 +41,42 @@ def parse_gen_answer(ans):
     return dict(value=json.loads(v), nodes=parse_dag(dag), tbits='' if tb == '-' else tb, trefs=int(tr), rt=rt == '1')
 
 
+def parse_gent_answer(ans):
+    """tlbgent answer -> None (unencodable) or dict(value, nodes, tbits, trefs, rt, trace, rp)"""
+    if ans.startswith('unenc '):
+        return None
+    assert ans.startswith('ok '), ans[:200]
+    v, dag, tb, tr, rt, trace, rp = ans[3:].rsplit(' ', 6)
+    return dict(value=json.loads(v), nodes=parse_dag(dag), tbits='' if tb == '-' else tb, trefs=int(tr), rt=rt == '1',
+                trace=trace, rp=rp == '1')
+
+
+def parse_paths_answer(ans):
+    """tlbpaths answer -> (n, more, [gent dict | None])"""
+    if not ans.startswith('ok '):
+        return None
+    head, _, body = ans.partition(';')
+    _, n, more = head.split()
+    vals = [parse_gent_answer(x) for x in body.split(';')] if body else []
+    return int(n), more == '1', vals
+
+
+def split_paths_answer(ans):
+    """tlbpaths answer -> (n, more, [raw gent answers]) (values parsed on demand)"""
+    if not ans.startswith('ok '):
+        return None
+    head, _, body = ans.partition(';')
+    _, n, more = head.split()
+    return int(n), more == '1', body.split(';') if body else []
+
+
+def parse_trace_answer(ans):
+    if not ans.startswith('ok '):
+        return None
+    v, rb, rr, trace = ans[3:].rsplit(' ', 3)
+    return dict(value=json.loads(v), rbits='' if rb == '-' else rb, rrefs=int(rr), trace=trace)
+
+
 def parse_dec_answer(ans):
     if not ans.startswith('ok '):
         return None
